@@ -6,6 +6,11 @@ use std::io::Write;
 
 pub mod util;
 pub mod wire;
+pub mod session;
+pub mod sessgen;
+mod c03;
+mod c04;
+mod c05;
 mod c01;
 mod c02;
 mod c07;
@@ -49,6 +54,9 @@ fn main() {
     let (gen, exec): (Gen, Exec) = match prop.as_str() {
         "c01" => (c01::gen, c01::exec),
         "c02" => (c02::gen, c02::exec),
+        "c03" => (c03::gen, c03::exec),
+        "c04" => (c04::gen, c04::exec),
+        "c05" => (c05::gen, c05::exec),
         "c07" => (c07::gen, c07::exec),
         _ => { eprintln!("unknown property {}", prop); std::process::exit(2); }
     };
